@@ -388,9 +388,26 @@ def push_shared(v):
     _fill(d, "b", v)
     _fill(d, 3, None)
     return _push(acc, None)
+
+
+def make_model():
+    # a class that is no module global (built in a factory): its methods are found through the receiver - the instance
+    # for a method, the class itself for a classmethod
+    class Model:
+        def __init__(self, n):
+            self.n = n
+
+        @classmethod
+        def create(cls, n):
+            return cls(n)
+
+        def grow(self, k):
+            return self.n + k
+
+    return Model
 '''
 
-MUST_LOG_NESTED = ["make_fact.<locals>.fact"]
+MUST_LOG_NESTED = ["make_fact.<locals>.fact", "make_model.<locals>.Model.__init__", "make_model.<locals>.Model.create", "make_model.<locals>.Model.grow"]
 
 NESTING_CALLS = [
     "M.top(1)", "M.top('a')", "M.top_propagates(1)", "M.rec(3)", "M.rec(0)", "M.rec_raises(2)", "M.consume(2)", "M.consume(0)",
@@ -398,5 +415,5 @@ NESTING_CALLS = [
     "M.mutate_and_return([1])", "M.fill_dict({'k1': 0})", "list(M.gen_mutating([]))",
     "M.AbcShape.make(1)", "M.AbcSquare().area(2)", "M.AbcSquare.build(3)", "M.Colour.parse('x')", "M.Colour.RED.shade(1)",
     "M.ret_none_expr({'k': 1})", "M.ret_none_attr(M.Prop(None))", "list(M.gen_ret_none_expr({}))", "M.call_back(1)", "M.CALLBACKS['k']('s')", "list(M.gen_container_then_element(1))", "M.make_fact()(3)", "M.show(1)", "M.show('a')", "M.show(2.5)", "M.show(2)",
-    "M.push_shared('a')", "M.push_shared([1])", "M.slotted(1)", "M.slotted('a')", "M.Stacked.smake(1)", "M.Stacked.meth(2)",
+    "M.make_model().create(3).grow(1)", "M.push_shared('a')", "M.push_shared([1])", "M.slotted(1)", "M.slotted('a')", "M.Stacked.smake(1)", "M.Stacked.meth(2)",
 ]
